@@ -6,7 +6,7 @@ use crate::docspace::{Kind, Space, SpaceCfg};
 use crate::dom::{read_doc, Doc, Node};
 use crate::oracle::Binding;
 use crate::refmodel::{infer, SAttr, SChild, SNode};
-use crate::rsast::{parse_rendered, resolve, RStruct, RTree};
+use crate::rsast::{read_structs, resolve, RStruct, RTree};
 use crate::subject::{self, Preset};
 use serde_json::{json, Value};
 use xml_schema_generator::Element;
@@ -67,6 +67,38 @@ pub fn plain_cfg(w: usize) -> SpaceCfg {
     c
 }
 
+/// alphabet of the history searches: attributes as sequences (order of attributes differs between
+/// documents), whitespace-only text as an item kind of its own
+pub fn history_cfg(w: usize) -> SpaceCfg {
+    let mut c = SpaceCfg::plain(w);
+    c.kinds = vec![Kind::Text, Kind::CData, Kind::Ws];
+    c.attr_seq = true;
+    c
+}
+
+/// three element names and three attribute names: several siblings appear / disappear together
+pub fn wide_cfg(w: usize) -> SpaceCfg {
+    let mut c = SpaceCfg::plain(w);
+    c.enames = vec!["a".into(), "b".into(), "c".into()];
+    c.anames = vec!["x".into(), "y".into(), "z".into()];
+    c.max_attrs = 3;
+    c.kinds = vec![Kind::Text];
+    c.both_empty = true;
+    c
+}
+
+/// one element name, nesting up to depth 6: repetition at every level
+pub fn deep_cfg(w: usize) -> SpaceCfg {
+    let mut c = SpaceCfg::plain(w);
+    c.enames = vec!["a".into()];
+    c.anames = vec!["x".into()];
+    c.max_attrs = 1;
+    c.depth = 6;
+    c.kinds = vec![Kind::Text];
+    c.root = "a".into();
+    c
+}
+
 /// a history evaluated on the real code
 pub struct Eval {
     pub el: Element<String>,
@@ -103,6 +135,24 @@ pub fn run_history(docs: &[&DocEntry]) -> Result<Element<String>, String> {
     }
 }
 
+/// as `run_history`, but the intermediate tree is rendered after every step (the result is
+/// discarded): a rendering must not leave anything behind that a later rendering depends on
+pub fn run_history_rendering(docs: &[&DocEntry]) -> Result<Element<String>, String> {
+    let run = || -> Result<Element<String>, xml_schema_generator::ParserError> {
+        let mut el = subject::parse(docs[0].xml.as_bytes())?;
+        for d in &docs[1..] {
+            let _ = subject::render(&el, Preset::QuickXml, false);
+            el = subject::extend(el, d.xml.as_bytes())?;
+        }
+        Ok(el)
+    };
+    match subject::guarded(run) {
+        Ok(Ok(e)) => Ok(e),
+        Ok(Err(e)) => Err(format!("error: {}", e)),
+        Err(p) => Err(format!("panic: {}", p)),
+    }
+}
+
 pub struct Rendered {
     pub text: String,
     pub structs: Vec<RStruct>,
@@ -112,7 +162,7 @@ pub struct Rendered {
 pub fn render_read(el: &Element<String>, preset: Preset, sorted: bool) -> Result<Rendered, String> {
     let text = subject::guarded(|| subject::render(el, preset, sorted))
         .map_err(|p| format!("rendering panicked: {}", p))?;
-    let structs = parse_rendered(&text).map_err(|e| format!("unreadable output: {}", e))?;
+    let structs = read_structs(&text).map_err(|e| format!("unreadable output: {}", e))?;
     let tree = resolve(&structs).map_err(|e| format!("unresolvable output: {}", e))?;
     Ok(Rendered {
         text,
